@@ -5,6 +5,8 @@ import (
 	"encoding/hex"
 	"fmt"
 	"math/big"
+	"os"
+	"runtime"
 	"sort"
 	"strings"
 	"time"
@@ -135,6 +137,59 @@ func freshGasL2(e *L2Env) { e.Ctx = e.Ctx.WithGasMeter(storetypes.NewInfiniteGas
 // every execution of a history runs on its OWN fresh goroutine (sequentially; the calling
 // goroutine only waits and compares): anything that leaks goroutine identity or stack
 // addresses into an observable differs between executions
+// The node's LOCAL ENVIRONMENT must not reach consensus: execution number x of a history runs with
+// its own time zone (time.Local), TZ / LANG / LC_ALL / HOME variables, GOMAXPROCS and working
+// directory (restored afterwards), on its own goroutine.
+func inLocalEnv(x int, fn func()) {
+	type envT struct {
+		zone           *time.Location
+		tz, lang, home string
+		procs          int
+		dir            string
+	}
+	envs := []envT{
+		{time.UTC, "UTC", "C", "/nonexistent-home-a", 1, "/"},
+		{time.FixedZone("A", 9*3600), "Asia/Tokyo", "ja_JP.UTF-8", "/tmp", 4, os.TempDir()},
+		{time.FixedZone("B", -8*3600), "America/Los_Angeles", "en_US.UTF-8", "/root", 2, "/usr"},
+		{time.FixedZone("C", 5*3600+1800), "Asia/Kolkata", "de_DE.ISO-8859-1", "/", 3, "/var"},
+	}
+	en := envs[x%len(envs)]
+	savedZone, savedProcs := time.Local, runtime.GOMAXPROCS(0)
+	savedDir, _ := os.Getwd()
+	keys := []string{"TZ", "LANG", "LC_ALL", "HOME"}
+	saved := map[string]*string{}
+	for _, k := range keys {
+		if v, ok := os.LookupEnv(k); ok {
+			v := v
+			saved[k] = &v
+		} else {
+			saved[k] = nil
+		}
+	}
+	time.Local = en.zone
+	os.Setenv("TZ", en.tz)
+	os.Setenv("LANG", en.lang)
+	os.Setenv("LC_ALL", en.lang)
+	os.Setenv("HOME", en.home)
+	runtime.GOMAXPROCS(en.procs)
+	_ = os.Chdir(en.dir)
+	defer func() {
+		time.Local = savedZone
+		runtime.GOMAXPROCS(savedProcs)
+		for _, k := range keys {
+			if saved[k] == nil {
+				os.Unsetenv(k)
+			} else {
+				os.Setenv(k, *saved[k])
+			}
+		}
+		if savedDir != "" {
+			_ = os.Chdir(savedDir)
+		}
+	}()
+	onOwnGoroutine(fn)
+}
+
 func onOwnGoroutine(fn func()) {
 	done := make(chan interface{})
 	go func() {
@@ -617,7 +672,7 @@ func genC18(seed uint64, tier string, outdir string) *Report {
 		runs := make([][]c18Print, R)
 		for x := 0; x < R; x++ {
 			x := x
-			onOwnGoroutine(func() {
+			inLocalEnv(x, func() {
 				sc := NewL1Scenario(s, id, nil)
 				for _, o := range c.Ops {
 					freshGasL1(sc.Env)
@@ -630,7 +685,7 @@ func genC18(seed uint64, tier string, outdir string) *Report {
 			plan := c18SpecPlan(NewRng(s^0x5bec), len(c.Ops), nil, nil)
 			sc := NewL1Scenario(s, id, nil)
 			var spec []c18Print
-			onOwnGoroutine(func() {
+			inLocalEnv(R, func() {
 				for i, o := range c.Ops {
 					for x := 0; x < plan[i]; x++ {
 						speculateL1(sc.Env, func() { sc.Env.L1Exec(o) })
@@ -677,7 +732,7 @@ func genC18(seed uint64, tier string, outdir string) *Report {
 		runs := make([][]c18Print, R)
 		for x := 0; x < R; x++ {
 			x := x
-			onOwnGoroutine(func() {
+			inLocalEnv(x, func() {
 				f := NewL2Scenario(s, id, false)
 				for _, o := range c.Ops {
 					freshGasL2(f.Env)
@@ -690,7 +745,7 @@ func genC18(seed uint64, tier string, outdir string) *Report {
 			plan := c18SpecPlan(NewRng(s^0x5bec), len(c.Ops), nil, nil)
 			f := NewL2Scenario(s, id, false)
 			var spec []c18Print
-			onOwnGoroutine(func() {
+			inLocalEnv(R, func() {
 				for i, o := range c.Ops {
 					for x := 0; x < plan[i]; x++ {
 						speculateL2(f.Env, func() { f.Env.L2Exec(o) })
@@ -740,7 +795,7 @@ func genC18(seed uint64, tier string, outdir string) *Report {
 		big3 := false
 		for x := 0; x < R; x++ {
 			x := x
-			onOwnGoroutine(func() {
+			inLocalEnv(x, func() {
 				f := NewL2Scenario(s, id, false)
 				for _, o := range ops {
 					freshGasL2(f.Env)
@@ -791,7 +846,7 @@ func genC18(seed uint64, tier string, outdir string) *Report {
 				func(i int) bool { return ops[i].Kind == "plan" })
 			f := NewL2Scenario(s, id, false)
 			var spec []c18Print
-			onOwnGoroutine(func() {
+			inLocalEnv(R, func() {
 				for i, o := range ops {
 					for x := 0; x < plan[i]; x++ {
 						speculateL2(f.Env, func() { c18ExecL2(f.Env, o) })
@@ -818,6 +873,7 @@ func genC18(seed uint64, tier string, outdir string) *Report {
 		"not shown by this technique: dependence on wall-clock, randomness or process history is only sampled by repetition inside one process")
 	genC18Oracle(rep, seed, tier, R, &id)
 	genC18Genesis(rep, seed, tier, R, &id)
+	genC18Hook(rep, seed, tier, R, &id)
 	writeShards(outdir, "C18l1", l1CaseHeader, "run_l1case", "l1case", l1Texts, 8, rep)
 	writeShards(outdir, "C18l2", l2CaseHeader, "run_l2case", "l2case", l2Texts, 8, rep)
 	return rep
